@@ -309,6 +309,10 @@ func c11ConcSub(ctx *Ctx, k int) error {
 		}
 		return true
 	})
+	// runs that hold a slot without an outcome: decide from the goroutine state whether they can ever end
+	if n := c11JudgeStuck(h, viol); n > 0 {
+		o.Stat("conc.runs_blocked_forever", int64(n))
+	}
 	runs := rec.snapshotRuns()
 	stuck := 0
 	for _, r := range runs {
